@@ -10,6 +10,22 @@ TRUSTED_COMMON = [
 ]
 
 PROPS = {
+    "C08": {
+        "num": 8,
+        "vo": ["Properties/C08.vo"],
+        "rule": "exhaustive: every history with premises live when recorded, depth<=5 (quick) / <=6 (thorough) over <=4 handles with premise "
+                "subsets of size<=2 (insert_explicit, insert_logical, extra justification, retract of every issued handle); random: 3..10 ops "
+                "over <=7 facts incl. duplicated premises and circular support; non-trivial = at least one logical fact (label not 'trivial'); "
+                "labels cascadeN = retractions that removed more than the target",
+        "level_text": "Proved for every justification graph and recursion depth: the cascade never takes a fact with an explicit justification, explicit "
+                "facts change liveness only by their own retraction, only retractions remove facts. The full statement (present iff supported; a retraction "
+                "removes exactly the least set closed under loss of support) is the Coq-defined executable specification Tms.ok (least fixpoint "
+                "by iteration), evaluated on every observation of the real IncrementalEngine and compared per op with the faithful model of tms.rs.",
+        "level_note": "Trusted: Coq kernel; model of tms.rs/propagation.rs/working_memory.rs (index maps abstracted to one justification list); harness; extraction. "
+                "The equality 'faithful cascade = least fixpoint' is currently checked by the monitor on all generated histories (exhaustive small scope), not yet a theorem. Axioms: none.",
+        "trusted_base": [],
+        "assumptions": ["premises are live when a justification is recorded and extra justifications go to present logical facts (the property's quantifier); other histories are compared model-vs-code only"],
+    },
     "C13": {
         "num": 13,
         "vo": ["Properties/C13.vo"],
